@@ -107,6 +107,7 @@ Definition reason_for (x : entry) : option msg :=
   match x with
   | (Setgroups _, Some (EOS _)) => Some (MSetuid RSetgroups)
   | (Setgid _, Some (EOS _)) => Some (MSetuid RSetgid)
+  | (Setuid _, Some (EOS _)) => Some (MSetuid RSetuid)
   | (Chdir _, Some (EOS e)) => Some (MChdir e)
   | (Umask _, Some (EOS e)) => Some (MExecOS e)
   | (Execve _ _ _, Some (EOS e)) => Some (MExecOS e)
